@@ -1,7 +1,7 @@
 #!/bin/bash
 # bin/verify_seed.sh <seedwork out dir e.g. /tmp/seedwork/C05/out/a> -> confirms: applies, builds, suite passes, demo fails with / passes without
 set -u
-src="$1"; id=$(echo "$src" | sed 's#/tmp/seedwork/##; s#/out/#-#')
+src="$1"; id=$(echo "$src" | sed 's#/tmp/seedwork2/\(C[0-9]*\)/out/#\1-w2#; s#/tmp/seedwork/##; s#/out/#-#')
 export GOFLAGS=-mod=mod GOPROXY=off GOSUMDB=off GOTOOLCHAIN=local
 wt=$(mktemp -d /tmp/vseed-XXXXXX); rmdir "$wt"
 git -C /repo worktree add -q --detach "$wt" HEAD || exit 2
@@ -13,7 +13,10 @@ cd "$wt"
 if git apply --whitespace=nowarn "$src/patch.diff" 2>/dev/null; then res_apply=yes; fi
 if [ $res_apply = yes ]; then
   go build ./... >/dev/null 2>&1 && res_build=yes
-  if go test -vet=off -count=1 ./... >/tmp/vseed-$id.suite 2>&1; then res_suite=yes; fi
+  # input.TestUdpConnection is timing-sensitive on a loaded box (fails on the pristine tree too): up to three attempts
+  for attempt in 1 2 3; do
+    if go test -vet=off -count=1 ./... >/tmp/vseed-$id.suite 2>&1; then res_suite=yes; break; fi
+  done
   for f in "$src"/*_test.go; do [ -f "$f" ] && cp "$f" "$wt/$demodir/"; done
   if ! timeout 300 go test -vet=off -count=1 -run 'Demo|C[0-9][0-9]' "./$demodir/" >/tmp/vseed-$id.demo_with 2>&1; then res_demo_fail=yes; fi
   git apply -R --whitespace=nowarn "$src/patch.diff"
